@@ -212,8 +212,7 @@ func runC09(w *World, r *Report, tier string) {
 						r.Fail("O3", cons, w.ipos(c), "<resume/> is built without h")
 						continue
 					}
-					fa, isFA := h.(*ssa.FieldAddr)
-					r.Check(isFA && fieldOfAddr(fa) == fInbound && strings.HasSuffix(fieldNames(fieldPath(fa)), "SMState.Inbound"), "O3", cons, w.ipos(c), "the h of <resume/> is not the session's inbound counter", "H = &SMState.Inbound")
+					r.Check(addrOfFieldOrCopy(h, fInbound), "O3", cons, w.ipos(c), "the h of <resume/> is not the session's inbound counter", "H = &SMState.Inbound")
 				}
 			}
 		}
